@@ -233,7 +233,9 @@ func (b *listBox[T]) Do(o Op) *Viol {
 		case "Prepend":
 			b.a.prep(arg...)
 		}
-		scribble(arg, b.sys.Poison)
+		if v := scribbleCheck(arg, b.sys.Poison, b.a.values, b.a.name, o.N); v != nil {
+			return v
+		}
 		if o.N == "Prepend" {
 			b.ref = splice(b.ref, 0, vs)
 		} else {
@@ -243,7 +245,9 @@ func (b *listBox[T]) Do(o Op) *Viol {
 		vs := b.tuple(o.A[1])
 		arg := argSlice(vs)
 		b.a.insert(o.A[0], arg...)
-		scribble(arg, b.sys.Poison)
+		if v := scribbleCheck(arg, b.sys.Poison, b.a.values, b.a.name, o.N); v != nil {
+			return v
+		}
 		if i := o.A[0]; i >= 0 && i <= n {
 			b.ref = splice(b.ref, i, vs)
 		}
